@@ -44,6 +44,8 @@ def families(draw):
             # the operator's documented commands may also run while batches are active
             "user": draw(st.lists(st.fixed_dictionaries({"at": st.integers(10, 300), "cmd": st.sampled_from(["try", "show"])}), max_size=2))
             if mode == "hpc" else [],
+            # ... in particular near the end of a batch, and slowly (see common.late_ops)
+            "late": draw(C.late_ops()) if mode == "hpc" else [],
         })
     return {"core": core, "variants": variants}
 
@@ -85,9 +87,12 @@ def run_case(case):
                         sim.user_cmd(["try-submit-jobs", sim.out] if cmd == "try" else ["show-status", "-o", sim.out, "-n"])
 
                 sim.w.user_events.append((u["cmd"], pred, fire, True))
+            C.install_late_ops(sim, var.get("late"))
             sim.submit()
             outcome = sim.drive()
             sim.w.user_events.clear()
+            if var.get("late") and not sim.w.cond_events:
+                res["classes"].append("late_operator_command_fired")
             res["counters"]["variant_runs"] += 1
             res["classes"].append("variant:" + var["mode"])
             if var.get("file_yields"):
